@@ -374,14 +374,6 @@ Proof.
   apply word_setbit; try lia. apply (x_words _ _ H). unfold i_scr, n_sys. lia.
 Qed.
 
-Lemma bind_assoc_run {A B C} (m : M machine A) (f : A -> M machine B) (g : B -> M machine C) s :
-  bind (bind m f) g s = bind m (fun x => bind (f x) g) s.
-Proof. unfold bind. destruct (m s); reflexivity. Qed.
-Lemma bind_ret_tt (m : M machine unit) s : bind m (fun _ => ret tt) s = m s.
-Proof. unfold bind, ret. destruct (m s) as [[] ?|]; reflexivity. Qed.
-Lemma bind_ret_run {A B} (a : A) (f : A -> M machine B) s : bind (ret a) f s = f a s.
-Proof. reflexivity. Qed.
-
 (* the stepping tactic again, now also flattening nested blocks and knowing the helper calls *)
 Ltac xexec2 cfg H :=
   first
